@@ -268,14 +268,25 @@ def chi2_oracle(rng):
                 data["sigma_v_measurement"] = list(np.sqrt(np.array(data["j_model"]) * ds / dds) * 299792.458)
         kw.update(data)
         lenses.append(kw)
-    gof = GoodnessOfFit(copy.deepcopy(lenses), {})
+    # the model settings the goodness-of-fit object is built with (the dictionary a user also hands to the sampler):
+    # none, or the switches of a run that samples lambda_mst / a velocity-dispersion systematic
+    kwargs_model = rng.choice([{}, {}, {"lambda_mst_sampling": True, "lambda_mst_distribution": "NONE"},
+                               {"sigma_v_systematics": True},
+                               {"lambda_mst_sampling": True, "lambda_mst_distribution": "NONE", "sigma_v_systematics": True}])
+    gof = GoodnessOfFit(copy.deepcopy(lenses), copy.deepcopy(kwargs_model))
     hyp = dict(kwargs_lens=dict(lambda_mst=1.0, gamma_ppn=1.0), kwargs_kin={})
     chi2 = float(np.squeeze(gof.reduced_chi2(cosmo, hyp["kwargs_lens"], hyp["kwargs_kin"])))
     s = LensSampleLikelihood(copy.deepcopy(lenses), normalized=False)
     logl = float(np.squeeze(s.log_likelihood(cosmo, kwargs_lens=hyp["kwargs_lens"], kwargs_kin=hyp["kwargs_kin"])))
     nd = s.num_data()
     if not close(chi2, -2 * logl / nd, 1e-10):
-        fails.append("reduced_chi2 %r != -2 lnL/N = %r" % (chi2, -2 * logl / nd))
+        fails.append("reduced_chi2 %r != -2 lnL/N = %r (model settings %r)" % (chi2, -2 * logl / nd, kwargs_model))
+    # ... and of the un-normalised likelihood of each lens on its own
+    from hierarc.Likelihood.hierarchy_likelihood import LensLikelihood
+    alone = sum(float(np.squeeze(LensLikelihood(**copy.deepcopy(l), normalized=False).lens_log_likelihood(
+        cosmo, kwargs_lens=hyp["kwargs_lens"], kwargs_kin=hyp["kwargs_kin"]))) for l in lenses)
+    if not close(chi2, -2 * alone / nd, 1e-10):
+        fails.append("reduced_chi2 %r != -2 sum_lenses lnL_unnormalised / N = %r (model settings %r)" % (chi2, -2 * alone / nd, kwargs_model))
     if match and abs(chi2) > 1e-12:
         fails.append("perfect match but reduced chi2 = %r" % chi2)
     # kin_fit lists the reports
